@@ -959,7 +959,10 @@ class RenderArgs(RenderArgsData):
                 is init_render_args
             )
         ):
-            if render_cls in type(self)._interned:  # has been initialized
+            # `self` is the interned instance i.e has been initialized.
+            # NOTE: Not `render_cls in type(self)._interned`; another thread may have
+            # interned its own instance after `__new__()` created this (empty) one.
+            if type(self)._interned.get(render_cls) is self:
                 return
             intern = True
         else:
